@@ -28,6 +28,8 @@ def fp_trace(rec):
         if not rec["e"].get("ok") or not rec["l"].get("ok"):
             return "earliest()/latest() fails on a valid value (%s%s)" % (rec.get("class"), leap)
         return "recorded value results differ from the specification (%s%s)" % (rec.get("class"), leap)
+    if rec.get("ev") == "da":
+        return "recorded date results differ from the specification (DA %s)" % rec.get("p")
     if rec.get("ev") == "range":
         shape = "%s %s-%s" % (rec.get("vkind"), "A" if rec.get("hasA") else "", "B" if rec.get("hasB") else "")
         if rec.get("leap"):
@@ -76,13 +78,19 @@ def run(ctx):
         if i in (400, n // 2, n - 1):
             ctx.sample(c)
 
+    def corrupt_case(c):
+        if c["kind"] == "val" and c["v"]["dprec"] == "M":
+            c["l"]["d"] -= 1
+            return True
+        return False
+    V.selftest_replay(ctx, "drv_datetime", lambda p: ["replay", "--cases", p], cases, corrupt_case, "an expected latest() day - 1")
+
     # B
     rep2 = vlib.run_driver("drv_datetime", ["record", "--tier", ctx.tier, "--out", ctx.path("rec")], env=ctx.env(), timeout=3000)
     if rep2["events"] == 0:
         raise vlib.ToolError("vacuity: no events recorded")
-    for tf in rep2["trace_files"]:
-        V.validate(ctx, "Trace_DateTime", tf["path"], ("val", "range"), fp_trace,
-                   "recorded native enumeration " + os.path.basename(tf["path"]), max_rejections=4, timeout=3000, heap="8g")
+    V.validate_files(ctx, "Trace_DateTime", [tf["path"] for tf in rep2["trace_files"]], ("val", "da", "range"), fp_trace,
+                     "recorded native enumeration", max_rejections=4, timeout=3000, heap="4g")
     ctx.cov["evaluations"] += rep2["events"]
     ctx.cov["distinct_nontrivial"] += rep2["events"]
     ctx.cov["traces_validated_against_impl"] += rep2["events"]
@@ -96,3 +104,10 @@ def run(ctx):
         return False
     V.selftest_corrupt(ctx, "Trace_DateTime", rep2["trace_files"][0]["path"], corrupt, "a recorded latest() day - 1")
     ctx.exhaustive = False
+
+
+def replay(ctx, obj):
+    """bin/check C12 --replay <file>: re-execute one recorded violation alone"""
+    ctx.level = "model_checking"
+    ctx.rule = "replay of one recorded violation"
+    V.replay_file(ctx, "drv_datetime", lambda c: ["replay", "--cases", c], "Trace_DateTime", ("val", "da", "range"), fp_trace)
